@@ -2,7 +2,7 @@
 from vx.unit import Unit
 from vx.extract import C
 
-PROPS = ['C13', 'C01']
+PROPS = ['C13', 'C06', 'C01']
 HEADER = 'use vstd::prelude::*;\nverus! {\n'
 FOOTER = '\n} // verus!\nfn main() {}\n'
 TAKE = (r'it\s*\.take_while_ref\(\|(\w+)\| \{\s*if taken_so_far (<=?) ([\w]+) && matches!\(\*?\1, \'0\'\.\.=\'7\'\) \{\s*taken_so_far \+= 1;\s*true\s*\} else \{\s*false\s*\}\s*\}\)')
@@ -14,7 +14,7 @@ def limit(m):
 
 
 def build(repo, findings):
-    u = Unit('U16c', "octal escapes of $'...' read at most three digits in all", repo, ['C13'], safety_props=['C01', 'C13'])
+    u = Unit('U16c', "octal escapes of $'...' read at most three digits in all", repo, ['C13', 'C06'], safety_props=['C01', 'C13'])
     src = u.source('brush-core/src/escape.rs')
     u.raw(HEADER)
     u.prelude('quoting/octal_reader_spec.rs')
@@ -29,8 +29,8 @@ def build(repo, findings):
     f.resub(r'int_utils::parse::<u8>\((\w+)\.as_str\(\), 8\)', r'parse_u8_octal(\1.as_str())', 'R14', 'int_utils::parse::<u8>(s, 8) -> stub', count=None)
     f.resub(r'\n\}$', '\n    Ok(())\n}', 'R6', 'wrapper epilogue `Ok(())`', count=1)
     f.sig(fn, ret='res', ensures=[
-        C('C13 ansi-c-octal-escape-has-at-most-three-digits', 'mode is AnsiCQuotes ==> old(it).rest().len() - final(it).rest().len() <= 2'),
-        C('C13 consumed-digits-are-a-prefix-of-octal-digits', 'final(it).rest() == old(it).rest().skip(old(it).rest().len() - final(it).rest().len())'),
+        C('C13,C06 ansi-c-octal-escape-has-at-most-three-digits', 'mode is AnsiCQuotes ==> old(it).rest().len() - final(it).rest().len() <= 2'),
+        C('C13,C06 consumed-digits-are-a-prefix-of-octal-digits', 'final(it).rest() == old(it).rest().skip(old(it).rest().len() - final(it).rest().len())'),
         C('aux echo-mode-takes-up-to-three-more', 'mode is EchoBuiltin ==> old(it).rest().len() - final(it).rest().len() <= 3'),
     ])
     f.at_body_start(fn, 'proof { lemma_oct_run_bound(it.rest(), 2); lemma_oct_run_bound(it.rest(), 3); }')
@@ -46,8 +46,8 @@ def build(repo, findings):
     g.resub(r'int_utils::parse::<u8>\((\w+)\.as_str\(\), 8\)', r'parse_u8_octal(\1.as_str())', 'R14', 'int_utils::parse::<u8>(s, 8) -> stub', count=None)
     g.resub(r'\n\}$', '\n    Ok(())\n}', 'R6', 'wrapper epilogue `Ok(())`', count=1)
     g.sig(fn, ret='res', ensures=[
-        C('C13 ansi-c-octal-escape-has-at-most-three-digits', 'old(it).rest().len() - final(it).rest().len() <= 2'),
-        C('C13 consumed-digits-are-a-prefix-of-octal-digits', 'final(it).rest() == old(it).rest().skip(old(it).rest().len() - final(it).rest().len())'),
+        C('C13,C06 ansi-c-octal-escape-has-at-most-three-digits', 'old(it).rest().len() - final(it).rest().len() <= 2'),
+        C('C13,C06 consumed-digits-are-a-prefix-of-octal-digits', 'final(it).rest() == old(it).rest().skip(old(it).rest().len() - final(it).rest().len())'),
     ])
     g.at_body_start(fn, 'proof { lemma_oct_run_bound(it.rest(), 2); lemma_oct_run_bound(it.rest(), 3); }')
     u.add(g)
